@@ -1017,6 +1017,111 @@ example : (GB.LTS.run mstep minit
     some ([.add .ok (some .absent), .removed, .add .ok (some .absent)], some 1, false, true) := by decide
 
 open GB.C16.Lts in
+/-- Lock-free `pool.Get` against Add ‖ Remove (label `get i n` of `mstep`: enabled in EVERY state, reads the pool's
+    sync.Map at that instant).  Over all runs (any goroutines, names, outcomes, poller states, interleavings):
+    (1) no answer ever recorded, and no answer a `get` would receive now, is present-but-nil (D17 fix), and a returned
+        connection is exactly a pool entry whose client has been stored (fully built controller);
+    (2) with the mutex free the answer is the sequential one: usable g iff the name is a present target of generation g;
+    (3) while a successful `Add(n)` of an absent name is in flight at its j-th statement, `get n` answers the NEW
+        connection iff the Add has passed the pool-store statement (3 ≤ j: client stored) — before that: absent, the
+        bare reservation (j = 2) included — and every other name answers as in the sequential state;
+    (4) while `Remove(n)` of a present name (generation g) is in flight at its j-th statement, `get n` answers g iff
+        the Remove has NOT passed the pool-delete statement (j < 5), absent afterwards; other names are unaffected;
+        and the connection g is open exactly while j < 5. -/
+theorem C16_lts_get_never_half_built (m : MState) (h : GB.LTS.Reachable mstep minit m) :
+    let b := afterR true (m.log.map Op.toROp)
+    ((∀ x ∈ m.got, x.2.2 ≠ GetRes.nilPresent) ∧ (∀ n, getRet m n ≠ .nilPresent) ∧
+      (∀ n g, getRet m n = .usable g ↔ m.st.conns n = some g ∧ m.st.clientSet g = true)) ∧
+    (m.hold = none → ∀ n, getRet m n = (match b.targets n with | some g => .usable g | none => .absent)) ∧
+    (∀ i n pc, m.hold = some (i, .add n .ok, pc) → b.targets n = none →
+      ∃ j, j ≤ 7 ∧ pc = pcAdd b n j ∧ getRet m n = (if 3 ≤ j then .usable b.next else .absent) ∧
+        (∀ n', n' ≠ n → getRet m n' = poolGet true b n')) ∧
+    (∀ i n g pc, m.hold = some (i, .remove n, pc) → b.targets n = some g →
+      ∃ j, j ≤ 6 ∧ pc = pcRemove n g j ∧ getRet m n = (if 5 ≤ j then .absent else .usable g) ∧
+        (∀ n', n' ≠ n → getRet m n' = poolGet true b n') ∧ m.st.connOpen g = decide (j < 5)) := by
+  intro b
+  have hi : C16.Inv b := inv_afterR _
+  refine ⟨⟨gotinv_reachable m h, fun n => poolGet_fixed_ne_nil _ _, fun n g => poolGet_usable_iff _ _ _⟩, ?_, ?_, ?_⟩
+  · intro hq n
+    have e : m.st = b := (C16_lts_quiescent_is_sequential m h).2 hq
+    simp only [getRet, e]
+    cases ht : b.targets n with
+    | none =>
+      have : b.conns n = none := by rw [hi.conns_eq]; exact ht
+      simp [poolGet, this]
+    | some g =>
+      have hc : b.conns n = some g := by rw [hi.conns_eq]; exact ht
+      have := (hi.live n g ht).2.2.1
+      simp [poolGet, hc, this]
+  · intro i n pc hh habs
+    obtain ⟨k, hk, e⟩ := C16_lts_inflight_is_prefix m h i _ pc hh
+    simp only [startPc] at e
+    rw [iter_add_ok_absent hi n habs k hk] at e
+    injection e with e1 e2
+    obtain ⟨p1, p2, _⟩ := poolGet_partialAdd hi n habs k hk
+    exact ⟨k, hk, e2, by simp only [getRet, e1]; exact p1, fun n' hne => by simp only [getRet, e1]; exact p2 n' hne⟩
+  · intro i n g pc hh hpres
+    obtain ⟨j, hj, e1, e2, _⟩ := C16_lts_inflight_remove_partial_work m h i n g pc hh hpres
+      ((m.log.map (fun op => opName op.toROp)).foldr max 0 + 1) (by
+        intro op ho
+        have : ∀ (l : List Nat) (x : Nat), x ∈ l → x < l.foldr max 0 + 1 := by
+          intro l
+          induction l with
+          | nil => intro x hx; cases hx
+          | cons a l ih =>
+            intro x hx
+            simp only [List.foldr]
+            rcases List.mem_cons.1 hx with rfl | hx
+            · omega
+            · have := ih x hx; omega
+        exact this _ _ (List.mem_map.2 ⟨op, ho, rfl⟩))
+    obtain ⟨p1, p2, p3⟩ := poolGet_partialRemove hi n g hpres j hj
+    exact ⟨j, hj, e2, by simp only [getRet, e1]; exact p1, fun n' hne => by simp only [getRet, e1]; exact p2 n' hne,
+      by rw [e1]; exact p3⟩
+
+open GB.C16.Lts in
+/-- A connection obtained before a Remove completes is closed once that Remove has returned: when `Remove(n)` of a
+    present name (generation g — the ONLY connection any `get n` answered since the previous call completed, by (2)
+    and (4) above) reaches its return and unlocks, then in the state after the unlock the kept connection g is closed
+    (`Stream` on the kept handle ⇒ Unavailable), `get n` answers absent, and the call returned `removed`. -/
+theorem C16_lts_get_handle_closed_after_remove (m m' : MState) (h : GB.LTS.Reachable mstep minit m) (i : Nat) (n : Name)
+    (g : Nat) (r : Res) (hh : m.hold = some (i, .remove n, .ret r))
+    (hpres : (afterR true (m.log.map Op.toROp)).targets n = some g) (hu : mstep m (.unlock i) = some m') :
+    r = .removed ∧ m'.hold = none ∧ m'.st.connOpen g = false ∧ getRet m' n = .absent ∧
+    stream { m'.st with handles := upd m'.st.handles n (some g) } n = .unavailable := by
+  obtain ⟨j, hj, e2, e3, _, e5⟩ := (C16_lts_get_never_half_built m h).2.2.2 i n g _ hh hpres
+  have hj6 : j = 6 ∧ r = .removed := by
+    match j, hj with
+    | 0, _ | 1, _ | 2, _ | 3, _ | 4, _ | 5, _ => simp [pcRemove] at e2
+    | 6, _ => simp [pcRemove] at e2; exact ⟨rfl, e2⟩
+  obtain ⟨rfl, rfl⟩ := hj6
+  simp only [mstep, hh, if_true] at hu
+  cases hu
+  simp at e3 e5
+  refine ⟨rfl, rfl, e5, e3, ?_⟩
+  simp [stream, e5]
+
+open GB.C16.Lts in
+/-- kernel-checked interleavings with lock-free gets by a third goroutine (9): Add(0) by goroutine 0, gets at the lookup,
+    at the bare reservation (statement 2: absent — never nil-present), after the client store (usable 0), Remove(0) by
+    goroutine 1 with gets before / after the pool delete, and after the unlock; the kept connection 0 is closed. -/
+example : (GB.LTS.run mstep minit
+    [.get 9 0, .lock 0 (.add 0 .ok), .step 0, .get 9 0, .step 0, .get 9 0, .step 0, .get 9 0, .step 0, .step 0, .step 0,
+     .step 0, .get 9 0, .unlock 0, .get 9 0, .lock 1 (.remove 0), .step 1, .step 1, .step 1, .step 1, .get 9 0, .step 1,
+     .get 9 0, .step 1, .unlock 1, .get 9 0]).map (fun m => (m.got.map (·.2.2), m.st.connOpen 0, m.results)) =
+    some ([.absent, .absent, .absent, .usable 0, .usable 0, .usable 0, .usable 0, .absent, .absent], false,
+          [.add .ok (some .absent), .removed]) := by decide
+open GB.C16.Lts in
+/-- a failing construction: the reservation is never visible to a get, before or after it is released; a get for
+    another name during an in-flight Add sees that name's sequential answer; get is enabled while Remove is blocked -/
+example : (GB.LTS.run mstep minit
+    ([.lock 0 (.add 1 .ok)] ++ List.replicate 7 (.step 0) ++ [.unlock 0, .lock 2 (.add 0 .fail), .step 2, .step 2, .get 9 0, .get 9 1,
+     .step 2, .get 9 0, .unlock 2, .pollerBusy 0, .lock 1 (.remove 1), .step 1, .step 1, .step 1, .get 9 1, .get 9 0])).map
+      (fun m => (m.got.map (·.2.2), m.hold.map (·.2.2), m.results)) =
+    some ([.absent, .usable 0, .absent, .usable 0, .absent], some (.rCloseRes 1 0),
+          [.add .ok (some .absent), .add .conn (some .absent)]) := by decide
+
+open GB.C16.Lts in
 /-- Facts tie for the LTS: the statements of `micro` (Pc order) are the statements of the real `Add` / `Remove` bodies
     (go/ast trace, regenerated on every run), in the same order, under a lock taken first and released by `defer`. -/
 theorem C16_facts_lts_statements :
